@@ -445,6 +445,7 @@ M('c04-twin-rename', 'C04', SUBC, "    initial_circuit: Circuit = copy.deepcopy(
 
 # C12.FOLD
 M('c12-fold-sym-range', 'C12', TTB, "        for number_of_true in range(self.input_size + 1):\n\n            _iter = iter(input_iterator_with_fixed_sum(self.input_size, number_of_true))\n            value: bool = self.evaluate_at(next(_iter), output_index)", "        for number_of_true in range(self.input_size - 1):\n\n            _iter = iter(input_iterator_with_fixed_sum(self.input_size, number_of_true))\n            value: bool = self.evaluate_at(next(_iter), output_index)", 'C12.FOLD')
+M('c12-fold-sym-half-layers', 'C12', TTB, "        for number_of_true in range(self.input_size + 1):\n\n            _iter = iter(input_iterator_with_fixed_sum(self.input_size, number_of_true))\n            value: bool = self.evaluate_at(next(_iter), output_index)", "        for number_of_true in range((self.input_size + 1) // 2 + 1):\n\n            _iter = iter(input_iterator_with_fixed_sum(self.input_size, number_of_true))\n            value: bool = self.evaluate_at(next(_iter), output_index)", 'C12.FOLD')  # seeded C12-13
 M('c12-fold-dep-insert', 'C12', CIRC, "            _x = list(x)\n            _x.insert(input_index, False)\n            value1 = self.evaluate_at(_x, output_index)", "            _x = list(x)\n            _x.insert(0, False)\n            value1 = self.evaluate_at(_x, output_index)", 'C12.FOLD')
 M('c12-fold-eq-input', 'C12', PYF, "            output_value = self.evaluate_at(x, output_index)\n            input_value = x[input_index]", "            output_value = self.evaluate_at(x, output_index)\n            input_value = x[-1 - input_index]", 'C12.FOLD')
 M('c12-fold-constant-first', 'C12', TTB, "        first_value = self._table[output_index][0]\n        for value in self._table[output_index]:", "        first_value = self._table[output_index][0]\n        for value in self._table[output_index][:-1]:", 'C12.FOLD')
